@@ -1,5 +1,5 @@
 (** Exec/RecvCase.v — correspondence cases for derived receivers (C01-C03, C07, C09, C17). *)
-From DarlingModel Require Import Run.Recv Run.InsideProofs Exec.ErrObs Exec.ConvCase.
+From DarlingModel Require Import Run.Recv Run.InsideProofs Run.SpecSound Exec.ErrObs Exec.ConvCase.
 Local Open Scope string_scope.
 
 (** The fixed library of user callables (harness/vh-rt/src/corpus.rs has the Rust spellings). *)
@@ -66,10 +66,12 @@ Definition expected_of (c : caseRecv) : option value :=
 
 (** C01: a mistake-free input (one the specification gives a value) parses to exactly that value *)
 Definition holds01 (c : caseRecv) : bool :=
-  match rc_entry c, expected_of c with
-  | EMeta, Some v => match rc_obs c with COk v' => value_eqb v v' | _ => false end
-  | _, _ => true
-  end.
+  (* [wf_specb]: the receiver meets the hypotheses of Run/SpecSound.v [expected_sound] *)
+  wf_specb (rc_ty c)
+  && match rc_entry c, expected_of c with
+     | EMeta, Some v => match rc_obs c with COk v' => value_eqb v v' | _ => false end
+     | _, _ => true
+     end.
 Definition nontrivial01 (c : caseRecv) : bool :=
   match rc_entry c, expected_of c with EMeta, Some _ => true | _, _ => false end.
 
